@@ -747,6 +747,10 @@ def _read_dictionaries(a):
     if isinstance(a, numpy.ndarray) and a.dtype == object:
         for idx in numpy.ndindex(a.shape):
             a[idx] = _read_dictionaries(a[idx])
+    elif isinstance(a, list):
+        # a list inside a dictionary literal stays a Python list
+        for i, v in enumerate(a):
+            a[i] = _read_dictionaries(v)
     return a
 
 
